@@ -242,9 +242,13 @@ BinOp(impl, op, x, y) ==
                       [] op = "ne" -> B(x # y)
                       [] OTHER -> "TE"               \* TypeError
 
-\* caches (zero-arity: evaluated once)
-LtTab == [impl \in Impls, x \in Idx, y \in Idx |-> BinOp(impl, "lt", x, y)]
-LeTab == [impl \in Impls, x \in Idx, y \in Idx |-> BinOp(impl, "le", x, y)]
+\* cache (zero-arity: evaluated once; nested functions over 1..N are
+\* indexed as arrays by TLC).  Op is BinOp read from the cache.
+OpTab == [impl \in Impls |-> [op \in Ops |->
+            [x \in Idx |-> [y \in Idx |-> BinOp(impl, op, x, y)]]]]
+Op(impl, op, x, y) == OpTab[impl][op][x][y]
+LtTab == [impl \in Impls |-> OpTab[impl]["lt"]]
+LeTab == [impl \in Impls |-> OpTab[impl]["le"]]
 
 (***************************************************************************)
 (* Hash.  InterfaceBase.__hash__ / IB__hash__: hash((name, module)),       *)
@@ -293,22 +297,28 @@ RefDunder(op, x, y) ==
 (* iff its element is smaller, or neither is smaller and q is earlier.     *)
 (***************************************************************************)
 Before(impl, inp, q, p) ==
-    \/ LtTab[impl, inp[q], inp[p]] = "T"
-    \/ LtTab[impl, inp[p], inp[q]] # "T" /\ q < p
+    \/ LtTab[impl][inp[q]][inp[p]] = "T"
+    \/ LtTab[impl][inp[p]][inp[q]] # "T" /\ q < p
 
 Rank(impl, inp, p) ==
     1 + Cardinality({q \in DOMAIN inp : q # p /\ Before(impl, inp, q, p)})
 
-SortedBy(impl, inp) ==
-    LET rk == [p \in DOMAIN inp |-> Rank(impl, inp, p)]
-    IN [r \in DOMAIN inp |->
-          LET ps == {p \in DOMAIN inp : rk[p] = r}
-          IN IF Cardinality(ps) = 1 THEN inp[CHOOSE p \in ps : TRUE] ELSE 0]
+\* (\o <<>> makes TLC materialise the function instead of re-evaluating
+\* Rank at every application)
+RankFn(impl, inp) == [p \in DOMAIN inp |-> Rank(impl, inp, p)] \o <<>>
+
+\* the arrangement a rank function describes (0 where it is not a bijection)
+Arrange(inp, rk) ==
+    [r \in DOMAIN inp |->
+        LET ps == {p \in DOMAIN inp : rk[p] = r}
+        IN IF Cardinality(ps) = 1 THEN inp[CHOOSE p \in ps : TRUE] ELSE 0]
+
+SortedBy(impl, inp) == Arrange(inp, RankFn(impl, inp))
 
 \* inputs on which sorted() is defined at all
 Sortable(inp) ==
     \A p, q \in DOMAIN inp : p # q =>
-        \A impl \in Impls : LtTab[impl, inp[p], inp[q]] \in {"T", "F"}
+        \A impl \in Impls : LtTab[impl][inp[p]][inp[q]] \in {"T", "F"}
 
 (***************************************************************************)
 (* Cases                                                                   *)
@@ -320,11 +330,14 @@ Next == UNCHANGED vars
 
 TypeOK ==
     /\ ck \in 0..2
-    /\ \A x \in Idx : /\ Univ[x].kind \in {"iface", "impl", "none", "fnokey",
-                                        "fnomod", "fkeyed", "fclass"}
-                      /\ DOMAIN Univ[x] = {"kind", "name", "module"}
-    /\ \A k \in DOMAIN SortIn : \A p \in DOMAIN SortIn[k] :
-          SortIn[k][p] \in Idx
+    /\ ck = 0 =>          \* the constants, checked once
+        /\ \A x \in Idx :
+              /\ Univ[x].kind \in {"iface", "impl", "none", "fnokey",
+                                   "fnomod", "fkeyed", "fclass"}
+              /\ DOMAIN Univ[x] = {"kind", "name", "module"}
+        /\ \A k \in DOMAIN SortIn : \A p \in DOMAIN SortIn[k] :
+              SortIn[k][p] \in Idx
+        /\ CVariant \in {"shipped", "modfirst", "nameonly"}
 
 Pair == ck = 1
 x0 == ca
@@ -337,7 +350,7 @@ y0 == cb
 \* space contains (y, x) as well)
 MechIsRef ==
     Pair => \A impl \in Impls, op \in Ops :
-                BinOp(impl, op, x0, y0) = Ref(op, x0, y0)
+                Op(impl, op, x0, y0) = Ref(op, x0, y0)
 
 DunderIsRef ==
     Pair /\ IsSpec(x0) =>
@@ -359,16 +372,16 @@ StrOrderTotal ==
 (***************************************************************************)
 (* Invariants: the laws, stated on the mechanism's answers                 *)
 (***************************************************************************)
-Le(impl, x, y) == LeTab[impl, x, y] = "T"
-Lt(impl, x, y) == LtTab[impl, x, y] = "T"
+Le(impl, x, y) == LeTab[impl][x][y] = "T"
+Lt(impl, x, y) == LtTab[impl][x][y] = "T"
 
 LawReflexive ==
     Pair /\ IsSpec(x0) /\ x0 = y0 =>
         \A impl \in Impls :
             /\ Le(impl, x0, x0) /\ ~Lt(impl, x0, x0)
-            /\ BinOp(impl, "eq", x0, x0) = "T"
-            /\ BinOp(impl, "ge", x0, x0) = "T"
-            /\ BinOp(impl, "gt", x0, x0) = "F"
+            /\ Op(impl, "eq", x0, x0) = "T"
+            /\ Op(impl, "ge", x0, x0) = "T"
+            /\ Op(impl, "gt", x0, x0) = "F"
 
 LawAntisymmetric ==
     Pair /\ IsSpec(x0) /\ IsSpec(y0) =>
@@ -386,42 +399,50 @@ LawStrict ==
             /\ Lt(impl, x0, y0) = ~Le(impl, y0, x0)
             /\ Lt(impl, x0, y0) = (Le(impl, x0, y0) /\ ~KeyEq(x0, y0))
 
+\* transitivity over all triples: "for all z, y <= z implies x <= z" is
+\* stated on the precomputed upper sets (a subset test instead of a
+\* quantifier per pair)
+SpecIdx == {z \in Idx : IsSpec(z)}
+LeUp == [impl \in Impls |-> [x \in Idx |->
+            {z \in SpecIdx : OpTab[impl]["le"][x][z] = "T"}]]
+LtUp == [impl \in Impls |-> [x \in Idx |->
+            {z \in SpecIdx : OpTab[impl]["lt"][x][z] = "T"}]]
 LawTransitive ==
     Pair /\ IsSpec(x0) /\ IsSpec(y0) =>
-        \A impl \in Impls : \A z \in Idx : IsSpec(z) =>
-            /\ Le(impl, x0, y0) /\ Le(impl, y0, z) => Le(impl, x0, z)
-            /\ Lt(impl, x0, y0) /\ Lt(impl, y0, z) => Lt(impl, x0, z)
+        \A impl \in Impls :
+            /\ Le(impl, x0, y0) => LeUp[impl][y0] \subseteq LeUp[impl][x0]
+            /\ Lt(impl, x0, y0) => LtUp[impl][y0] \subseteq LtUp[impl][x0]
 
 \* two interfaces are equal exactly when their keys are equal; equal
 \* interfaces hash equal
 LawEqIffKey ==
     Pair /\ IsIface(x0) /\ IsIface(y0) =>
         \A impl \in Impls :
-            (BinOp(impl, "eq", x0, y0) = "T") = KeyEq(x0, y0)
+            (Op(impl, "eq", x0, y0) = "T") = KeyEq(x0, y0)
 
 LawHashConsistent ==
     Pair /\ IsIface(x0) /\ IsIface(y0) =>
         \A impl \in Impls :
-            BinOp(impl, "eq", x0, y0) = "T" => HashOf(x0) = HashOf(y0)
+            Op(impl, "eq", x0, y0) = "T" => HashOf(x0) = HashOf(y0)
 
 \* class specifications keep identity equality (and stay hashable by it)
 LawImplIdentity ==
     Pair /\ IsImpl(x0) /\ IsImpl(y0) =>
         \A impl \in Impls :
-            /\ (BinOp(impl, "eq", x0, y0) = "T") = (x0 = y0)
-            /\ BinOp(impl, "eq", x0, y0) = "T" => HashOf(x0) = HashOf(y0)
+            /\ (Op(impl, "eq", x0, y0) = "T") = (x0 = y0)
+            /\ Op(impl, "eq", x0, y0) = "T" => HashOf(x0) = HashOf(y0)
 
 \* != is the negation of ==, for every pair of the universe
 LawNeIsNotEq ==
     Pair => \A impl \in Impls :
-        /\ BinOp(impl, "eq", x0, y0) \in {"T", "F"}
-        /\ BinOp(impl, "ne", x0, y0) \in {"T", "F"}
-        /\ (BinOp(impl, "ne", x0, y0) = "T") = (BinOp(impl, "eq", x0, y0) = "F")
+        /\ Op(impl, "eq", x0, y0) \in {"T", "F"}
+        /\ Op(impl, "ne", x0, y0) \in {"T", "F"}
+        /\ (Op(impl, "ne", x0, y0) = "T") = (Op(impl, "eq", x0, y0) = "F")
 
 \* reflected comparisons agree (also in raising TypeError)
 LawReflected ==
     Pair => \A impl \in Impls, op \in Ops :
-        BinOp(impl, op, x0, y0) = BinOp(impl, Swap(op), y0, x0)
+        Op(impl, op, x0, y0) = Op(impl, Swap(op), y0, x0)
 
 \* every specification sorts before None
 LawBeforeNone ==
@@ -429,7 +450,7 @@ LawBeforeNone ==
         \A impl \in Impls :
             /\ Lt(impl, x0, y0) /\ Le(impl, x0, y0)
             /\ ~Lt(impl, y0, x0) /\ ~Le(impl, y0, x0)
-            /\ BinOp(impl, "eq", x0, y0) = "F"
+            /\ Op(impl, "eq", x0, y0) = "F"
 
 \* NotImplemented exactly for key-less foreign operands; the operators
 \* then raise TypeError (ordering) or fall back to identity (==, !=)
@@ -437,14 +458,14 @@ LawNotImplemented ==
     Pair /\ IsSpec(x0) =>
         \A impl \in Impls, op \in OrdOps :
             /\ (Dunder(impl, op, x0, y0) = "NI") = KeylessForeign(y0)
-            /\ (BinOp(impl, op, x0, y0) = "TE") = KeylessForeign(y0)
-            /\ KeylessForeign(y0) => /\ BinOp(impl, "eq", x0, y0) = "F"
-                                     /\ BinOp(impl, "ne", x0, y0) = "T"
+            /\ (Op(impl, op, x0, y0) = "TE") = KeylessForeign(y0)
+            /\ KeylessForeign(y0) => /\ Op(impl, "eq", x0, y0) = "F"
+                                     /\ Op(impl, "ne", x0, y0) = "T"
 
 \* both implementations answer alike
 LawImplsAgree ==
     Pair => \A op \in Ops :
-        /\ BinOp("c", op, x0, y0) = BinOp("py", op, x0, y0)
+        /\ Op("c", op, x0, y0) = Op("py", op, x0, y0)
         /\ Dunder("c", op, x0, y0) = Dunder("py", op, x0, y0)
 
 \* sorted(): defined, a permutation (ranks are a bijection: the unique
@@ -453,16 +474,17 @@ LawImplsAgree ==
 LawSortedUnique ==
     ck = 2 =>
         LET inp == SortIn[ca]
-            out == SortedBy("py", inp)
+            rk == RankFn("py", inp)
+            out == Arrange(inp, rk)
             n == Len(inp)
         IN /\ Sortable(inp)
-           /\ \A impl \in Impls : SortedBy(impl, inp) = out
-           /\ {Rank("py", inp, p) : p \in DOMAIN inp} = 1..n
+           /\ Arrange(inp, RankFn("c", inp)) = out
+           /\ {rk[p] : p \in DOMAIN inp} = 1..n
            /\ \A p, q \in DOMAIN inp :          \* stable
                  (/\ p < q
-                  /\ LtTab["py", inp[p], inp[q]] # "T"
-                  /\ LtTab["py", inp[q], inp[p]] # "T")
-                 => Rank("py", inp, p) < Rank("py", inp, q)
+                  /\ LtTab["py"][inp[p]][inp[q]] # "T"
+                  /\ LtTab["py"][inp[q]][inp[p]] # "T")
+                 => rk[p] < rk[q]
            /\ \A r \in 1..(n - 1) :
                  LET a == out[r]  b == out[r + 1]
                  IN /\ a \in Idx /\ b \in Idx
